@@ -43,6 +43,9 @@ TDSet(o) == {[name |-> o[j].name, keys |-> {o[j].keys[h] : h \in 1..Len(o[j].key
 Viol(r) ==
   IF r.ev = "Sound"
   THEN UNION {PosViol(r.positions[j]) : j \in 1..Len(r.positions)} \cup TDViol(r)
+       \* beyond the listed properties ("X:" = extended specification): the in-memory StubIndexBuilder, fed the
+       \* decoded traces, builds the same stub as the store -> CLI path without a rewriter
+       \cup (IF ~r.ib_agrees THEN {"X:IndexBuilderAgrees"} ELSE {})
   ELSE   (IF \E j \in 2..Len(r.obs) : ObsSet(r.obs[j]) # ObsSet(r.obs[1]) THEN {"OrderAndProcessFree"} ELSE {})
     \cup (IF \E j \in 2..Len(r.tdobs) : TDSet(r.tdobs[j]) # TDSet(r.tdobs[1]) THEN {"TypedDictClassesOrderFree"} ELSE {})
 
